@@ -11,7 +11,7 @@ from .. import common, internal, tlc
 
 def _validate(it):
     if "deadlock" in it:
-        return dict(id=it["id"], status="deadlock", detail=it["deadlock"])
+        return dict(id=it["id"], status="deadlock", detail=it["deadlock"], sched=it.get("sched"), history=it.get("history"))
     d = tlc.scratch("itr_")
     try:
         p = os.path.join(d, "t.json")
